@@ -310,11 +310,13 @@ def check_property(prop, tier, seed, verbose=False):
         lines.append('VIOLATION property=%s replay=%s%s' % (prop, path, '' if w else ' no-failing-input-found'))
         lines.append('  obligation: %s' % (o.name if ur is not None else o['name']))
         rc = 1
-    if tier == 'thorough' and rc == 0 and not undecided:
-        # thorough tier: the bounded witness searches run even though every obligation was discharged. They are BOUNDED
-        # (listed under coverage.bounded, never counted as discharged) and can only add a violation with a concrete input.
+    if rc == 0 and not undecided:
+        # the bounded witness searches run even though every obligation was discharged: all of them in the thorough tier,
+        # those marked 'quick' (seconds once built) in the quick tier too. They are BOUNDED (listed under coverage.bounded,
+        # never counted as discharged) and can only add a violation with a concrete input replayed on the real code.
         for rp in pcfg.get('replays', []):
-            if not (rp.get('on_undecided') or rp.get('thorough')): continue
+            if not (rp.get('on_undecided') or rp.get('thorough') or rp.get('quick')): continue
+            if tier != 'thorough' and not rp.get('quick'): continue
             try:
                 from . import engines
                 w = {'driver': rp['driver'], 'bin': rp.get('bin', 'replay'), 'args': rp.get('args', {}), 'history': rp.get('history', ''), 'target': rp.get('target', 'replay-target')}
